@@ -589,6 +589,11 @@ func NumberFormat(fn parser.Function, args []value.Primary, _ *option.Flags) (va
 		if !value.IsNull(i) {
 			precision = int(i.(*value.Integer).Raw())
 			value.Discard(i)
+			if 1100 < precision {
+				// a float64 has at most 1074 significant decimal places
+				value.Discard(p)
+				return nil, NewFunctionInvalidArgumentError(fn, fn.Name, "precision is too large")
+			}
 		}
 	}
 	if 2 < len(args) {
